@@ -174,7 +174,7 @@ def case_strategy(draw, variant):
         opsl.remove("sum")
     op = draw(st.sampled_from(opsl))
     mask = draw(S.mask_spec(n, kinds=("none", "none", "bool")))
-    return {"n": n, "keys": keys, "vals": [vspec], "mask": mask, "op": op,
+    return {"n": n, "warm": draw(S.warm()), "keys": keys, "vals": [vspec], "mask": mask, "op": op,
             "skip_na": draw(st.sampled_from([True, True, False])), "sort": True,
             "render": {"vc": draw(st.sampled_from(["np", "series"])), "kc": "np", "index": draw(st.sampled_from(["default", "shuffled"])),
                        "mc": draw(st.sampled_from(["np", "series"]))}}
@@ -238,7 +238,7 @@ def check(case, ctx):
             raise Violation(f"dtype:{op}", f"bool values gave {res.dtype}")
     # last cumulative value per group == group reduction (same mask); only where the model is not silent
     if op != "count" and (case["skip_na"] or all(v is not None for v in pyvals)):
-        red = getattr(gbops.build(case, keys), op)(vals[0], mask=mask)
+        red = getattr(gbops.build(case, keys, warm=False), op)(vals[0], mask=mask)
         rl, rmap = gbops.result_to_dict(red, "reduction")
         last = {}
         for i in sel:
